@@ -23,6 +23,8 @@ C09_OthersEnd == J => (IsOp /\ R.reached /\ R.closing => R.others)
 C09_DoneCompletes == J => (IsOp /\ R.reached /\ R.closing /\ R.transport # "udpserver" => R.done)
 \* Cancel!OnceEach + CloseCompletes: every registered on-close callback ran exactly once
 C09_OnCloseOnce == J => (IsOp /\ R.reached /\ R.closing /\ R.transport # "udpserver" => (Len(R.onclose) = 3 /\ All(R.onclose, 1)))
+\* "closing ... is idempotent and safe while operations are in flight": every Close() call returns
+C09_CloseReturns == J => (IsOp /\ R.reached /\ R.kind = "close" => R.closeret)
 \* "closing ... is idempotent and safe while operations are in flight"
 C09_NoPanic == J => R.panics = 0
 \* stopping a server: Serve returns, every connection's done signal completes, callbacks once, clients' calls end
